@@ -541,3 +541,7 @@ impl<'a> fmt::Debug for Item<'a> {
         }
     }
 }
+
+#[cfg(any(kani, libtw2_verif))]
+#[path = "/verif/kani/teehistorian_raw.rs"]
+mod verif_kani;
